@@ -5,7 +5,8 @@
    hexVertices' while loop, hexLatticeBaseVectors) are the definitions of
    C07/Model.v that the correspondence ties execute at binary64. *)
 From Coq Require Import List Arith ZArith Bool Reals.
-From T4V Require Import Base.Scalar C07.Model C07.ProofsAlgebra C07.ProofsComb C07.ProofsMain.
+From T4V Require Import Base.Scalar C07.Model C07.ProofsAlgebra C07.ProofsComb C07.ProofsMain
+  C07.ProofsGeom C07.ProofsExample.
 Import ListNotations.
 Open Scope R_scope.
 
@@ -132,7 +133,7 @@ Example C07_listing_example :
   Ok [(1, 2); (1, 5); (3, 5); (0, 3); (0, 4); (2, 4)]%nat.
 Proof. split; [vm_compute; tauto|vm_compute; reflexivity]. Qed.
 
-(* ---------- the base vectors (partial: sign facts as hypotheses) ---------- *)
+(* ---------- the base vectors, with the sign facts as hypotheses ---------- *)
 
 (* Prism: centre c, axis u, vertices w (indexed modulo 6, wv k = w (k mod 6)),
    central symmetry wv (k+3) = 2c - wv k; side a = [wv (a+5), wv a].  The six
@@ -189,3 +190,96 @@ Theorem C07_proj_par_meaning : forall u nrm x : rvec,
   (dot x nrm = 0 -> proj_par u nrm x = x).
 Proof. exact proj_par_meaning. Qed.
 Print Assumptions C07_proj_par_meaning.
+
+(* ---------- geometry of a strictly convex centrally symmetric hexagon ---------- *)
+
+(* Piece (i) of DESIGN 5.8.  Hexagon wv 0 .. wv 5 about c, wv (k+3) = 2c - wv k,
+   turning left about u at every vertex (strictly convex); the six planes carry
+   the sides in a listing order l, with any point, any normal length and sense,
+   the listed sense being the side of the centre.  Then planes of different
+   groups are not parallel, the vertex shared by two neighbouring sides is seen
+   on the listed sense by both planes of the third group, and no common point of
+   two non-neighbouring side planes is (it lies strictly beyond the side between
+   them): exactly the hypotheses of C07_hex_base_vectors_partial, i.e.
+   areHexSidesAdjacent answers Some for the six neighbouring pairs only. *)
+Theorem C07_hex_adjacency_geometry :
+  forall (c u : rvec) (w : nat -> rvec) (l : list nat) (surfs : list rsurf),
+  In l all_listings ->
+  (forall i, (i < 6)%nat -> carries u w (pl surfs i) (side_at l i)) ->
+  (forall i, (i < 6)%nat -> sd surfs i = planeSide RS c (pl surfs i) /\ sd surfs i <> 0%Z) ->
+  (forall k, wv w (k + 3) = vsub (vscale 2 c) (wv w k)) ->
+  (forall k, 0 < det3 (vsub (wv w (k + 1)) (wv w k)) (vsub (wv w (k + 2)) (wv w (k + 1))) u) ->
+  forall i j, (i < j < 6)%nat -> (i / 2 <> j / 2)%nat ->
+    cross (snd (pl surfs i)) (snd (pl surfs j)) <> (0, 0, 0) /\
+    let k1 := (2 * other_group i j)%nat in
+    if adjb_of_listing l i j
+    then inside surfs k1 (wv w (vertex_of l (i, j))) /\ inside surfs (k1 + 1) (wv w (vertex_of l (i, j)))
+    else forall X, on_plane X (pl surfs i) -> on_plane X (pl surfs j) ->
+                   ~ (inside surfs k1 X /\ inside surfs (k1 + 1) X).
+Proof.
+  intros c u w l surfs Hl Hc Hs Hsym Ht i j Hij Hg. split.
+  - exact (hex_planes_independent c u w l surfs Hl Hc Hs Hsym Ht i j Hij Hg).
+  - exact (hex_sign_facts c u w l surfs Hl Hc Hs Hsym Ht i j Hij Hg).
+Qed.
+Print Assumptions C07_hex_adjacency_geometry.
+
+(* ---------- C07: the base vectors of every admissible hexagonal prism ---------- *)
+
+(* For every strictly convex, centrally symmetric hexagon (regular or not, either
+   sense of rotation about the axis, any orientation in space), its six side
+   planes listed in any of the 48 MCNP orders (both orders of the last two),
+   each given by any point, any non-zero normal of either sense and the sense on
+   which the centre lies, with or without a seventh and eighth plane (of any
+   tilt not parallel to the axis): the model of hexLatticeBaseVectors returns
+     a1 = the translation across the first-listed side  (sum of its two vertices
+          about the centre, C07_hex_translation),
+     a2 = the translation across the third-listed side,
+   both sheared along the axis to be parallel to the top plane (unchanged when
+   already parallel, C07_proj_par_meaning), and
+     a3 = tau u, the translation along the axis that carries the eighth plane
+          onto the seventh (when the two are parallel). *)
+Theorem C07_hex_base_vectors :
+  forall (c u : rvec) (w : nat -> rvec) (l : list nat) (surfs : list rsurf),
+  In l all_listings ->
+  (forall i, (i < 6)%nat -> carries u w (pl surfs i) (side_at l i)) ->
+  (forall i, (i < 6)%nat -> sd surfs i = planeSide RS c (pl surfs i) /\ sd surfs i <> 0%Z) ->
+  (forall k, wv w (k + 3) = vsub (vscale 2 c) (wv w k)) ->
+  ((forall k, 0 < det3 (vsub (wv w (k + 1)) (wv w k)) (vsub (wv w (k + 2)) (wv w (k + 1))) u) \/
+   (forall k, det3 (vsub (wv w (k + 1)) (wv w k)) (vsub (wv w (k + 2)) (wv w (k + 1))) u < 0)) ->
+  (List.length surfs = 6%nat ->
+     hexLatticeBaseVectors RS surfs =
+     Ok [proj_par u u (across c w (side_at l 0)); proj_par u u (across c w (side_at l 2))]) /\
+  (List.length surfs = 8%nat ->
+   dot u (snd (pl surfs 6)) <> 0 -> dot u (snd (pl surfs 7)) <> 0 ->
+   exists tau,
+     hexLatticeBaseVectors RS surfs =
+     Ok [proj_par u (snd (pl surfs 6)) (across c w (side_at l 0));
+         proj_par u (snd (pl surfs 6)) (across c w (side_at l 2));
+         vscale tau u] /\
+     (forall lam, snd (pl surfs 6) = vscale lam (snd (pl surfs 7)) ->
+        tau = dot (vsub (fst (pl surfs 6)) (fst (pl surfs 7))) (snd (pl surfs 6)) / dot u (snd (pl surfs 6)) /\
+        forall q, on_plane q (pl surfs 7) -> on_plane (vadd q (vscale tau u)) (pl surfs 6))).
+Proof. exact hex_base_vectors. Qed.
+Print Assumptions C07_hex_base_vectors.
+
+(* the regular hexagon c +- e1, c +- (e1/2 + h e2), c +- (-e1/2 + h e2)
+   (e1, e2 perpendicular of equal length, h = sqrt 3 / 2) and all its affine
+   images (any e1, e2 independent modulo u, any h > 0) belong to the family *)
+Theorem C07_regular_hexagon_in_family : forall (c e1 e2 u : rvec) (h : R),
+  0 < h -> 0 < det3 e1 e2 u ->
+  (forall k, wv (hexagon_of c e1 e2 h) (k + 3) = vsub (vscale 2 c) (wv (hexagon_of c e1 e2 h) k)) /\
+  (forall k, 0 < det3 (vsub (wv (hexagon_of c e1 e2 h) (k + 1)) (wv (hexagon_of c e1 e2 h) k))
+                      (vsub (wv (hexagon_of c e1 e2 h) (k + 2)) (wv (hexagon_of c e1 e2 h) (k + 1))) u).
+Proof.
+  intros c e1 e2 u h Hh Hd. split; intros k; [apply hexagon_of_sym|apply hexagon_of_turn; assumption].
+Qed.
+Print Assumptions C07_regular_hexagon_in_family.
+
+(* non-vacuity: a concrete irregular prism with eight planes, mixed senses and
+   points, listing 0 3 1 4 2 5 — every hypothesis of C07_hex_base_vectors holds
+   and the model returns the expected vectors *)
+Example C07_example_base_vectors :
+  (forall i, (i < 6)%nat -> carries ex_u ex_w (pl ex_surfs i) (side_at ex_l i)) /\
+  (forall i, (i < 6)%nat -> sd ex_surfs i = planeSide RS ex_c (pl ex_surfs i) /\ sd ex_surfs i <> 0%Z) /\
+  hexLatticeBaseVectors RS ex_surfs = Ok [(3, -1, 0); (3, 1, 0); (0, 0, 4)].
+Proof. split; [exact ex_carries|split; [exact ex_sense|exact example_base_vectors]]. Qed.
